@@ -10,7 +10,8 @@ base = json.load(open("/root/.vp/BASELINE.json"))
 stable = set(base["stable_pass"])
 with tempfile.TemporaryDirectory() as td:
     xml = os.path.join(td, "r.xml")
-    env = dict(os.environ, PYTHONPATH=repo, PYTHONDONTWRITEBYTECODE="1")
+    # LOKY_MAX_CPU_COUNT: tests that use n_jobs=-1 otherwise start 16 loky workers per xdist worker (0.5 GB each)
+    env = dict(os.environ, PYTHONPATH=repo, PYTHONDONTWRITEBYTECODE="1", LOKY_MAX_CPU_COUNT="2", OMP_NUM_THREADS="1", MKL_NUM_THREADS="1")
     cmd = ["/venv/bin/python", "-W", "ignore", "-m", "pytest", "-q", "-p", "no:cacheprovider", "--timeout=900",
            "--continue-on-collection-errors", "-n", os.environ.get("NPROC", "8"), f"--junitxml={xml}"] + paths
     r = subprocess.run(cmd, cwd=repo, env=env, stdout=subprocess.PIPE, stderr=subprocess.STDOUT, text=True)
@@ -25,7 +26,26 @@ with tempfile.TemporaryDirectory() as td:
 files = {n.split("::")[0].rsplit(".", 1)[0] for n in res}
 regress = sorted(n for n in stable if n in res and res[n] != "pass")
 missing = sorted(n for n in stable if n not in res and n.split("::")[0].rsplit(".", 1)[0] in files) if paths != ["pgmpy/tests"] else sorted(n for n in stable if n not in res)
-print(f"collected={len(res)} passed={sum(v=='pass' for v in res.values())} stable_regressions={len(regress)} stable_missing={len(missing)}")
+# a stable test that failed in the parallel run is re-run alone (twice at most): several baseline tests are
+# statistically flaky (unseeded sampling) or time out under load
+flaky = []
+still = []
+for n in regress:
+    cls, name = n.split("::")
+    mod, klass = cls.rsplit(".", 1)
+    nodeid = mod.replace(".", "/") + ".py::" + klass + "::" + name
+    ok = False
+    for attempt in range(2):
+        r2 = subprocess.run(["/venv/bin/python", "-W", "ignore", "-m", "pytest", "-q", "-p", "no:cacheprovider", "--timeout=900", nodeid],
+                            cwd=repo, env=env, stdout=subprocess.PIPE, stderr=subprocess.STDOUT, text=True)
+        if r2.returncode == 0:
+            ok = True
+            break
+    (flaky if ok else still).append(n)
+for n in flaky:
+    print("FLAKY (failed in the parallel run, passed when re-run alone)", n)
+regress = still
+print(f"collected={len(res)} passed={sum(v=='pass' for v in res.values())} stable_regressions={len(regress)} flaky_rerun_ok={len(flaky)} stable_missing={len(missing)}")
 for n in regress[:20]:
     print("REGRESSION", n)
 for n in missing[:20]:
